@@ -263,6 +263,8 @@ def parse_back(ctx, jobs, built):
             want_msg = norm(built[ct][0])
             io_out = impl_recv(cur_buf, cur_chunks)
             case = dict(code=ct[0], text=ct[1], buf=cur_buf, chunks=cur_chunks, index=idx, mode=mode)
+            if len(ct) > 2:
+                case['start'], case['ops'] = ct[2], [list(o) for o in ct[3]]
             calls.append((case, io_out, cur_buf, cur_chunks))
             ctx.evaluated((ct, mode, len(cur_chunks), idx), nontrivial=nontrivial_reply(ct, s))
             remaining_want = b''.join(built[c2][1] for c2 in s[idx + 1:]) + trailer
@@ -473,6 +475,161 @@ def run_peer_esc(ctx, n_random):
     judge_peer_streams(ctx, todo, 'recv-peer-esc', 'peer')
 
 
+# ------------------------------------------------------------ construction orders
+ORDER_CODES = ['250', '450', '550', '354', '150', '421']
+ORDER_MSGS = ['2.1.5 Recipient <x> Ok', '5.7.1 Denied', 'Ok', '4.2.0 try\nagain later', '', '2.1179.245 foo', '3.0.0 x', '2.0.0 5.1.1 nested']
+ORDER_ESCS = ['2.3.4', '5.7.1', '4.10.100']
+BAD_CODES = ['650', '25', 'abc', '2500', '050']
+BAD_ESCS = ['abc', '2.1000.1', '2.0.0 ', '3.1.1', '2.1']
+
+
+def order_templates(a, b, m, m2, e):
+    """(name, start, ops): start None = Reply(), (code, text) = Reply(code, text)"""
+    C, M, E, F = (lambda c: ('C', c)), (lambda v: ('M', v)), (lambda v: ('E', v)), ('F',)
+    return [
+        ('ctor', (a, m), ()),
+        ('code,msg', None, (C(a), M(m))),
+        ('msg,code', None, (M(m), C(a))),
+        ('ctor,code', (a, m), (C(b),)),
+        ('msg,code,code', None, (M(m), C(a), C(b))),
+        ('code,msg,code', None, (C(a), M(m), C(b))),
+        ('ctor,esc,code', (a, m), (E(e), C(b))),
+        ('ctor,code,esc', (a, m), (C(b), E(e))),
+        ('esc,code,msg,code', None, (E(e), C(a), M(m), C(b))),
+        ('ctor,code,msg2', (a, m), (C(b), M(m2))),
+        ('ctor,code,msg-again', (a, m), (C(b), M(m))),
+        ('ctor,escnone,code', (a, m), (E(None), C(b))),
+        ('msg,esc,code', None, (M(m), E(e), C(b))),
+        ('ctor,escfalse,code', (a, m), (F, C(b))),
+        ('ctor,code,escfalse', (a, m), (C(b), F)),
+    ]
+
+
+def gen_order(rng):
+    ops = []
+    for _ in range(rng.randrange(1, 7)):
+        k = rng.random()
+        if k < 0.4:
+            ops.append(('C', rng.choice(BAD_CODES) if rng.random() < 0.1 else gen_code(rng) if rng.random() < 0.7 else str(rng.randrange(100, 200))))
+        elif k < 0.7:
+            ops.append(('M', gen_text(rng, rng.choice(ORDER_CODES))))
+        elif k < 0.95:
+            r = rng.random()
+            ops.append(('E', None if r < 0.15 else rng.choice(BAD_ESCS) if r < 0.3 else gen_esc_prefix(rng, rng.choice(ORDER_CODES))[1]))
+        else:
+            ops.append(('F',))
+    if not any(o[0] == 'M' for o in ops):
+        ops.insert(rng.randrange(len(ops) + 1), ('M', gen_text(rng)))
+    if rng.random() < 0.9:
+        ops.append(('C', gen_code(rng)))
+    start = None if rng.random() < 0.5 else gen_reply(rng)
+    return ('random', start, tuple(ops))
+
+
+EXPECTED_SETTER_ERRORS = ('Invalid SMTP reply code', 'Invalid ENHANCEDSTATUSCODES string')
+
+
+def impl_apply(r, op):
+    """one setter operation; 1 if the setter refused the value (ValueError of the code / ESC setter)"""
+    try:
+        if op[0] == 'C':
+            r.code = op[1] or None
+        elif op[0] == 'M':
+            r.message = op[1]
+        elif op[0] == 'E':
+            r.enhanced_status_code = op[1] or None
+        else:
+            r.enhanced_status_code = False
+    except ValueError as exc:
+        if op[0] in 'CE' and exc.args and exc.args[0] in EXPECTED_SETTER_ERRORS:
+            return 1
+        raise
+    return 0
+
+
+def impl_order(start, ops):
+    """-> (code, message, esc, wire or None, flags, esc_off)"""
+    r = Reply(*start) if start else Reply()
+    flags = [impl_apply(r, op) for op in ops]
+    code, msg, esc = r.code, r.message, r.enhanced_status_code
+    wire = None
+    if code and VALID_CODE.match(code) and msg is not None:
+        io = IO(ScriptSocket(), ('h', 25))
+        r.send(io)
+        wire = io.send_buffer.getvalue()
+    return code or '', msg if msg is not None else '', esc, wire, flags, (esc is None and bool(code) and code[0] in '245')
+
+
+def model_ops(start, ops):
+    enc = {'C': 0, 'M': 1, 'E': 2, 'F': 3}
+    out = []
+    if start:
+        out += [[0, start[0]], [2, ''], [1, start[1]]]       # Reply(code, text) = code setter, ESC None, message setter
+    for op in ops:
+        out.append([enc[op[0]], (op[1] or '') if len(op) > 1 else ''])
+    return out
+
+
+def order_case(start, ops):
+    return dict(start=list(start) if start else None, ops=[list(o) for o in ops], op='ops')
+
+
+def run_orders(ctx, n_random, everycut_one_in):
+    """the same reply put together in different ORDERS (constructor; code then message; message then code;
+    code changed afterwards to every other class; ESC set before / after the code change; message re-assigned),
+    sent and read back with a pipelined successor.  Oracle on the implementation alone: a shown ESC has the
+    class digit of the code the object has when it is sent; what is read back is the code and the text the
+    object showed when it was sent."""
+    rng = ctx.rng
+    orders = []
+    for a in ORDER_CODES:
+        for b in ORDER_CODES:
+            for i, m in enumerate(ORDER_MSGS):
+                m2 = ORDER_MSGS[(i + 3) % len(ORDER_MSGS)]
+                e = ORDER_ESCS[(i + len(orders)) % len(ORDER_ESCS)]
+                orders += order_templates(a, b, m, m2, e)
+    orders += [gen_order(rng) for _ in range(n_random)]
+    orders = list(dict.fromkeys(orders))
+    mouts = ctx.model.batch('c17_ops', [model_ops(st, ops) for (_, st, ops) in orders])
+    successor = ('250', 'ok')
+    built = build_all(ctx, [successor])
+    jobs = []
+    for i, ((name, start, ops), mo) in enumerate(zip(orders, mouts)):
+        ctx.count('order:' + name)
+        case = order_case(start, ops)
+        try:
+            code, msg, esc, wire, flags, esc_off = impl_order(start, ops)
+        except Exception as exc:
+            report(ctx, 'c17:build-raises', case, 'setter sequence raised %s' % exc_text(exc))
+            ctx.mismatch('ops-raises', case, exc_text(exc), mo)
+            continue
+        cls = (esc[0], code[0]) if esc and code else None
+        ctx.evaluated(('order', start, ops), nontrivial=(len(ops) > 0))
+        m_wire = B(mo[3]) if wire is not None else None
+        im = (code, msg, (esc,) if esc is not None else (), wire, ((0, 0, 0) if start else ()) + tuple(flags))
+        mm = (U(mo[0]), U(mo[1]), tuple(U(x) for x in mo[2]), m_wire, tuple(mo[4]))
+        if im != mm:
+            ctx.mismatch('ops', case, im, mm)
+        if cls and cls[0] != cls[1]:
+            report(ctx, 'c17:esc-class-differs-from-code-class', dict(case, code=code, text=msg),
+                   'after %s%s the reply has code %s but shows enhanced status %s (message %r%s)' % (
+                       'Reply(%r, %r)' % tuple(start) if start else 'Reply()', ''.join('; %s=%r' % ({'C': 'code', 'M': 'message', 'E': 'enhanced_status_code'}.get(o[0], 'enhanced_status_code'), o[1] if len(o) > 1 else False) for o in ops),
+                       code, esc, msg, ', written as %r' % wire if wire is not None else ''))
+        if esc is not None and code and code[0] not in '245':
+            report(ctx, 'c17:esc-class-differs-from-code-class', dict(case, code=code, text=msg), 'code %s has no enhanced status class but the reply shows %s' % (code, esc))
+        if wire is None:
+            ctx.count('order:not-sendable')
+            continue
+        if esc_off:
+            ctx.count('order:esc-switched-off-roundtrip-not-judged')   # the receiving side shows its default ESC
+            continue
+        key = (code, msg, start, ops)
+        built[key] = (msg, wire)
+        s = [key, successor] if i % 2 == 0 else [key]
+        jobs += seg_jobs(rng, s, built, TRAILERS[i % len(TRAILERS)], ['whole', 'bytes', 'random'], i % everycut_one_in == 0)
+    parse_back(ctx, jobs, built)
+
+
 # ------------------------------------------------------------ the two patterns of reply.py
 def model_msgpat(o):
     return (U(o[0]), U(o[1])) if o else None
@@ -599,8 +756,9 @@ def run(ctx):
     _reported.clear()
     stages = [
         ('classes', lambda: run_classes(ctx)),
-        ('esc-matrix', lambda: run_esc_matrix(ctx, 8 if ctx.quick else 1)),
+        ('esc-matrix', lambda: run_esc_matrix(ctx, 16 if ctx.quick else 1)),
         ('peer-esc', lambda: run_peer_esc(ctx, 500 if ctx.quick else 20000)),
+        ('orders', lambda: run_orders(ctx, 1500 if ctx.quick else 30000, 8 if ctx.quick else 2)),
         ('structured', lambda: run_structured(ctx, 800 if ctx.quick else 4000)),
         ('patterns', lambda: run_patterns(ctx, 6 if ctx.quick else 7, 6 if ctx.quick else 7)),
         ('malformed', lambda: run_malformed(ctx, 5 if ctx.quick else 7)),
@@ -631,6 +789,28 @@ def replay(ctx, case):
             rc = 1
         if ctx.model:
             print('model         :', model_recv_out(ctx.model.call('c17_recv', [buf, chunks]), chunks))
+    if c.get('ops') is not None:
+        start = tuple(c['start']) if c.get('start') else None
+        ops = tuple(tuple(o) for o in c['ops'])
+        print('%s%s' % ('Reply(%r, %r)' % start if start else 'Reply()', ''.join('; %s = %r' % ({'C': 'code', 'M': 'message'}.get(o[0], 'enhanced_status_code'), o[1] if len(o) > 1 else False) for o in ops)))
+        try:
+            code, msg, esc, wire, flags, esc_off = impl_order(start, ops)
+            print('implementation: code=%r message=%r enhanced_status_code=%r wire=%r setters refused=%r' % (code, msg, esc, wire, flags))
+            if esc and code and esc[0] != code[0]:
+                print('  -> enhanced status class %s differs from the code class %s [c17:esc-class-differs-from-code-class]' % (esc[0], code[0]))
+                rc = 1
+        except Exception as exc:
+            print('  -> raised %s [c17:build-raises]' % exc_text(exc))
+            rc = 1
+        if ctx.model:
+            mo = ctx.model.call('c17_ops', model_ops(start, ops))
+            print('model         : code=%r message=%r enhanced_status_code=%r wire=%r setters refused=%r' % (U(mo[0]), U(mo[1]), tuple(U(x) for x in mo[2]), B(mo[3]), list(mo[4])))
+        if 'buf' in c or 'chunks' in c:
+            print('expected back : code=%r message=%r' % (c.get('code'), norm(c.get('text', ''))))
+            if out[0] == 0 and (out[1] != c.get('code') or out[2] != norm(c.get('text', ''))):
+                print('  -> read back %r, not what was sent [c17:roundtrip]' % (out[:3],))
+                rc = 1
+        return rc
     if 'code' in c and 'text' in c:
         out = impl_ctor(c['code'], c['text'])
         if out[0] != 0:
